@@ -1,4 +1,5 @@
 import PV.Lemmas.Tree.Morris
+import PV.Generated.TreeLoops
 /-!
 # C12 (heap level) — `p_tree_foreach` visits the in-order prefix and restores every link
 
